@@ -1,27 +1,31 @@
 #!/bin/bash
-# Must-fail corpus: applies every seeded change under /verif/seeded to /repo (which must be clean), runs the
-# quick check of its property, undoes the change, and records whether the check reported a violation.
+# Must-fail corpus: applies every seeded change under /verif/seeded to a scratch worktree of /repo's HEAD
+# (GOVC_REPO points the checker at it; /repo itself is not touched), runs the quick check of its property,
+# and records whether the check reported a violation.
 # usage: selftest.sh [seed-name ...]     (default: all); writes /verif/seeded/RESULTS.md
 cd /verif || exit 2
-if [ -n "$(git -C /repo status --porcelain)" ]; then echo "/repo is not clean"; exit 2; fi
-seeds="$@"; [ -z "$seeds" ] && seeds=$(ls seeded | grep -E '^C[0-9]+-[0-9]+$')
-out=seeded/RESULTS.md.new
+wt=/tmp/selftest_repo
+git -C /repo worktree remove --force $wt 2>/dev/null; rm -rf $wt
+git -C /repo worktree add -q --detach $wt HEAD || exit 2
+seeds="$@"; all=0; [ -z "$seeds" ] && { seeds=$(ls seeded | grep -E '^C[0-9]+-[0-9]+$'); all=1; }
+out=/tmp/selftest_results.md
 echo "| seed | property check | result | first reported obligation |" > $out
 echo "|---|---|---|---|" >> $out
 for s in $seeds; do
   prop=${s%%-*}
   d=/verif/seeded/$s
-  if ! git -C /repo apply --check $d/patch.diff 2>/dev/null; then
-    echo "| $s | $prop | patch no longer applies (code it changed was repaired) | |" >> $out; continue
+  if ! git -C $wt apply --check $d/patch.diff 2>/dev/null; then
+    echo "| $s | $prop | patch no longer applies (the code it changed was repaired since) | |" >> $out; echo "$s n/a"; continue
   fi
-  git -C /repo apply $d/patch.diff
-  log=$(./check $prop --no-evidence 2>&1)
-  git -C /repo checkout -- .
+  git -C $wt apply $d/patch.diff
+  log=$(GOVC_REPO=$wt ./bin/govc check --prop $prop --tier quick --no-evidence 2>&1)
+  git -C $wt checkout -- .
   v=$(echo "$log" | grep -c '^VIOLATION')
-  first=$(echo "$log" | grep '^VIOLATION' | head -1 | sed 's/.*obligation=//' | cut -c1-110)
+  first=$(echo "$log" | grep '^VIOLATION' | head -1 | sed 's/.*obligation=//' | awk '{print $1}' | cut -c1-110)
   repro=$(echo "$log" | grep '^VIOLATION' | grep -vc 'no-failing-input-found')
   if [ "$v" -gt 0 ]; then res="caught ($v violations, $repro with a replayed failing input)"; else res="MISSED"; fi
   echo "| $s | $prop | $res | \`$first\` |" >> $out
   echo "$s $res"
 done
-mv $out seeded/RESULTS.md
+git -C /repo worktree remove --force $wt
+if [ $all = 1 ]; then cp $out seeded/RESULTS.md; else cat $out; fi
